@@ -10,7 +10,23 @@ use std::cell::RefCell;
 const SINK_WORDS: usize = 8192;
 static mut SINK: [usize; SINK_WORDS] = [0; SINK_WORDS];
 
+/// what a stale `Waker` vtable entry resolves to: does nothing
+unsafe fn sink_noop(_: *const ()) {}
+
 fn pattern_word() -> usize {
+    static INIT: std::sync::Once = std::sync::Once::new();
+    INIT.call_once(|| {
+        // every word of the sink is the address of a no-op function: a stale waker whose data
+        // and vtable words both point into the sink can be woken or dropped without a crash
+        // (the write that `task.take()` performs on the poisoned node is what gets reported)
+        let f = sink_noop as unsafe fn(*const ()) as usize;
+        unsafe {
+            let base = std::ptr::addr_of_mut!(SINK) as *mut usize;
+            for i in 0..SINK_WORDS {
+                base.add(i).write(f);
+            }
+        }
+    });
     // an address in the middle of the sink: plausible as a pointer, never a live object
     unsafe { (std::ptr::addr_of!(SINK) as *const usize).add(SINK_WORDS / 2) as usize }
 }
@@ -99,4 +115,40 @@ pub fn reset() {
 
 pub fn quarantined() -> usize {
     BLOCKS.with(|q| q.borrow().len())
+}
+
+/// Type-erased variant for whole task state machines (L2): `Pin<Box<dyn Future>>` whose
+/// memory is poisoned and quarantined, not freed, when the task finishes or is killed.
+pub struct QDyn {
+    ptr: *mut (dyn std::future::Future<Output = ()> + 'static),
+    what: &'static str,
+}
+
+impl QDyn {
+    pub fn new(b: std::pin::Pin<Box<dyn std::future::Future<Output = ()>>>, what: &'static str) -> QDyn {
+        // Safety: the value stays pinned at its heap address for its whole life
+        let ptr = Box::into_raw(unsafe { std::pin::Pin::into_inner_unchecked(b) });
+        QDyn { ptr, what }
+    }
+    pub fn poll(&mut self, cx: &mut std::task::Context<'_>) -> std::task::Poll<()> {
+        unsafe { std::pin::Pin::new_unchecked(&mut *self.ptr).poll(cx) }
+    }
+    /// leak without running destructors (a poisoned state machine after a panic)
+    pub fn leak(self) {
+        std::mem::forget(self)
+    }
+}
+
+impl Drop for QDyn {
+    fn drop(&mut self) {
+        unsafe {
+            let layout = Layout::for_value(&*self.ptr);
+            std::ptr::drop_in_place(self.ptr);
+            if layout.size() > 0 {
+                let raw = self.ptr as *mut u8;
+                poison(raw, layout.size());
+                BLOCKS.with(|q| q.borrow_mut().push(Block { ptr: raw, layout, what: self.what }));
+            }
+        }
+    }
 }
